@@ -25,7 +25,7 @@
                          ("less than 2^32"); a refusal is accepted (a value cannot be computed here anyway)
      LabelHasZero        SP800_108_Counter documents that the label "must not contain zero bytes" but the implementation and its
                          test-suite accept one on purpose (SP 800-108 does not restrict the label): value or refusal accepted *)
-EXTENDS Bytes, Json, IOUtils
+EXTENDS Bytes, Json, IOUtils, SequencesExt
 K == INSTANCE KDF
 Traces == JsonDeserialize(IOEnv.TRACE_FILE)
 DocumentedClass(x) == x \in {"ValueError", "TypeError"}
@@ -140,6 +140,19 @@ S2vVerdict(e) == LET reason == S2vReason(e) IN
               IF e.out = K!S2v(e.key, e.comps) THEN "ok"
               ELSE IF Len(e.comps) = 0 /\ e.out = K!S2vEmptyDefect(e.key) THEN "empty vector returns CMAC(K, zero) instead of CMAC(K, <one>)"
               ELSE DIFFERS)
+\* the _S2V object as a state machine: its state is the vector of components supplied so far; update() appends (refused, leaving the vector
+\* as it was, once 127 components are in), derive() returns S2V of the vector and may be called at any time and repeatedly
+S2vObjStep(key, acc, ev) ==
+   IF acc[2] # "ok" THEN acc
+   ELSE IF ev.op = "update" THEN
+        (IF Len(acc[1]) >= 127 THEN (IF ev.exc = "none" THEN <<acc[1], "out-of-domain parameters were not refused: more than 127 components">> ELSE acc)
+         ELSE IF ev.exc # "none" THEN <<acc[1], "refused parameters inside the domain (" \o ev.exc \o ")">>
+         ELSE <<Append(acc[1], ev.data), "ok">>)
+   ELSE IF ev.exc # "none" THEN <<acc[1], "refused parameters inside the domain (" \o ev.exc \o ")">>
+   ELSE IF ev.out = K!S2v(key, acc[1]) THEN acc
+   ELSE IF Len(acc[1]) = 0 /\ ev.out = K!S2vEmptyDefect(key) THEN <<acc[1], "empty vector returns CMAC(K, zero) instead of CMAC(K, <one>)">>
+   ELSE <<acc[1], "derive() does not return S2V of the components supplied so far (object history)">>
+S2vObjVerdict(e) == LET Step(acc, ev) == S2vObjStep(e.key, acc, ev) IN FoldLeft(Step, <<<<>>, "ok">>, e.events)[2]
 Verdict(e) == CASE e.alg = "pbkdf1" -> Pbkdf1Verdict(e)
                 [] e.alg = "pbkdf2" -> Pbkdf2Verdict(e)
                 [] e.alg = "hkdf" -> HkdfVerdict(e)
@@ -148,6 +161,7 @@ Verdict(e) == CASE e.alg = "pbkdf1" -> Pbkdf1Verdict(e)
                 [] e.alg = "bcrypt" -> BcryptVerdict(e)
                 [] e.alg = "bcrypt_check" -> CheckVerdict(e)
                 [] e.alg = "s2v" -> S2vVerdict(e)
+                [] e.alg = "s2vobj" -> S2vObjVerdict(e)
                 [] e.alg = "eks-link" -> EksLinkVerdict(e)
                 [] e.alg = "eks-final" -> EksFinalVerdict(e)
                 [] OTHER -> "harness: unknown record kind"
